@@ -79,9 +79,9 @@ func Run(tier string) {
 	run.Assume("not generated: a source reporting its failure as io.EOF/io.ErrUnexpectedEOF (indistinguishable from truncation, covered by C02); a transient error returned together with data that is fully consumed")
 	seed := run.Seed
 	rinv := "PrefixOnlyS CleanOnlyIfHonestS FailureSurfaces NoPanicR TypeOK"
-	run.SpecMustHold("reader-faults-mc", vk.TLCOpts{Module: "StreamMC", Config: mcCfg("reader", 2, 1, run.Pick(4, 6), "{0, 1, 3}", "{}", 0, false, rinv, "Sticky", true), Workers: 16})
+	run.SpecMustHold("reader-faults-mc", vk.TLCOpts{Module: "StreamMC", Config: mcCfg("reader", 2, 1, run.Pick(4, 6), "{0, 1, 3}", "{}", 0, false, rinv, "Sticky", true), Workers: 16, Expect: []string{"RCall", "RFill", "RProbe"}})
 	winv := "HoldbackW FrameShapeW SuccessMeansCompleteW FailureSurfacesW"
-	run.SpecMustHold("writer-faults-mc", vk.TLCOpts{Module: "StreamMC", Config: mcCfg("writer", 2, 1, 0, "{}", "{0, 1, 2, 3, 4, 5}", run.Pick(4, 5), false, winv, "StickyW", true), Workers: 16})
+	run.SpecMustHold("writer-faults-mc", vk.TLCOpts{Module: "StreamMC", Config: mcCfg("writer", 2, 1, 0, "{}", "{0, 1, 2, 3, 4, 5}", run.Pick(4, 5), false, winv, "StickyW", true), Workers: 16, Expect: []string{"WWriteA", "WCloseA"}})
 
 	writerPlans(run, seed)
 	id, err := age.GenerateX25519Identity()
